@@ -321,6 +321,13 @@ fn episode(ctx: &Ctx, case: u64, out: &mut Out, tsan: bool) -> EpisodeResult {
         shim::delay_add(shim::C_WRITE, shim::F_HINT, shim::BEFORE, p / 2, 20, 300);
         shim::delay_add(shim::C_UNLINK, shim::F_ANY, shim::BEFORE | shim::AFTER, p, 20, 400);
     }
+    // a quarter of the episodes on a file system that completes some writes only partly: an entry
+    // then reaches its file in two calls, with a reader free to map the file in between
+    let short = case % 4 == 3 && shim::present();
+    let shorts0 = shim::shorts_done();
+    if short {
+        shim::short_writes(300_000, (ctx.seed ^ case) | 1);
+    }
     shim::watch(Some(&dir));
 
     let st = match Store::open(&dir, &conf) {
@@ -512,6 +519,11 @@ fn episode(ctx: &Ctx, case: u64, out: &mut Out, tsan: bool) -> EpisodeResult {
     res.merges = sh.merges_done.load(Ordering::Relaxed);
     shim::watch(None);
     shim::delay_clear();
+    shim::short_writes(0, 0);
+    if short {
+        out.count("episodes_with_short_writes", 1);
+        out.count("short_writes", shim::shorts_done() - shorts0);
+    }
     if !res.hang {
         drop(st);
         crate::store::wait_background_threads(0, 5000);
